@@ -180,6 +180,8 @@ class FamilyRun:
             built = [f.result() for f in [ex.submit(self.do_build, s) for s in suites]]
             jobs = []
             for b in built:
+                if b.get("incomplete"):
+                    agg.setdefault("incomplete", []).append(b["name"])
                 agg["grammars"] += b["grammars"]
                 agg["opaque_rules"].extend(b["unknown"])
                 agg["t_compile"] += b["t_compile"]
@@ -260,12 +262,22 @@ class FamilyRun:
                 os.remove(part)
             else:
                 parts.append(part)
+        # the harness writes a "fin" marker when it reaches its regular end; a run that was cut short logged "crash"
+        incomplete = False
+        if parts and not suite.get("obs"):
+            with open(parts[-1], "rb") as f:
+                f.seek(max(0, os.path.getsize(parts[-1]) - 400))
+                tail = f.read().decode("utf-8", "replace")
+            if '"k":"fin"' not in tail:
+                if '"k":"crash"' not in tail:
+                    raise Broken("harness %s ended without its end marker and without a crash record" % name)
+                incomplete = True
         for f in (exe, tb):
             if os.path.exists(f):
                 os.remove(f)
         return {"name": name, "table": tj, "tbl": tbl, "names": {n["id"]: n["name"] for n in tbl["nodes"]},
                 "parts": parts, "unknown": unknown, "grammars": suite.get("ngrammars", 0),
-                "spec": suite.get("spec", "TraceContract"), "machine": suite.get("machine", False),
+                "spec": suite.get("spec", "TraceContract"), "machine": suite.get("machine", False), "incomplete": incomplete,
                 "t_compile": t_b - t_a, "t_run": time.time() - t_b}
 
     def do_part(self, b, part):
@@ -278,11 +290,16 @@ class FamilyRun:
         if b.get("machine") and part.endswith(".0000.ndjson"):
             # lock-step comparison of the operational model with this part of the recorded runs (drift, never a verdict)
             mo = part + ".machine.json"
-            mr, mgen, mdist = tlc_trace(part, b["table"], mo, spec="TraceMachine")
-            res["machine"] = mr["machine"]
+            try:
+                mr, mgen, mdist = tlc_trace(part, b["table"], mo, spec="TraceMachine")
+                res["machine"] = mr["machine"]
+                res["states"] += mgen
+                res["distinct"] += mdist
+            except Broken as e:
+                # the lock-step comparison never decides a property: if it cannot run, that is reported as drift
+                res["machine"] = {"cases": 0, "compared": 0, "skipped": 0, "limited": 0, "ndrift": 1,
+                                  "drift": [{"what": "lock-step run failed", "line": 0, "model": str(e)[-300:], "code": ""}]}
             res["machine"]["suite"] = name
-            res["states"] += mgen
-            res["distinct"] += mdist
             if os.path.exists(mo):
                 os.remove(mo)
         if part.endswith(".0000.ndjson"):
